@@ -12,10 +12,16 @@ CHECKS = {
         technique="bounded-exhaustive enumeration of the message universe (full(2)+dev(d)) through the real pack/unpack",
         text="Every message of the bounded universe U (all 9 kinds; every field ranging over a boundary-value domain; up to d "
         "fields deviating from the default at once, d=2 quick / 3 thorough, plus the full product over the two simplest "
-        "values) is packed, decoded with three different suffixes, compared field by field and re-packed. Exhaustive within "
+        "values) is packed, decoded with several suffixes, compared field by field and re-packed. Exhaustive within "
         "U; values outside U are covered only through the representative taking the same branches.",
         note="Trusts CPython and the harness' own field comparison; utf-8 session encoding; generic controls never carry a library-known OID.",
-        ref="C01",
+    ),
+    "C02": dict(
+        technique="explicit-state search with state merging: columns = bytes delivered, every chunk s[k:j] from every column on the real session",
+        text="For each stream (1-3 messages, both roles, on/off PDU boundaries, long-form lengths) every chunk s[k:j] for all k<=j, in "
+        "three container flavours (bytes, reused bytearray, memoryview), is delivered to a copy of column k's real session; each edge must "
+        "reproduce column j's canonical state and cumulative messages. By induction this covers all 2^(n-1) partitions of the stream.",
+        note="Streams are a finite catalogue drawn from U (44 quick / ~300 thorough); well-formed streams only (terminators are C05/C08).",
     ),
     "C03": dict(
         technique="bounded-exhaustive enumeration of U, library encoder vs an independent strict RFC 4511 decoder (reference model)",
@@ -23,7 +29,28 @@ CHECKS = {
         "from RFC 4511 Appendix B that shares no code with sansldap; the abstract values must be equal. The reference is itself "
         "checked to be its own inverse over U's dev(1) slice on every run.",
         note="Trusts the reference's transcription of the RFC 4511 ASN.1 module (type tables in vf/ref/ldap.py).",
-        ref="C03",
+    ),
+    "C04": dict(
+        technique="exhaustive enumeration of BER encoding freedoms (length forms, TRUE octets, explicit defaults, trailing elements) per TLV node of reference-encoded messages",
+        text="Every base message (full(2)+dev(1) of U) is encoded by the independent reference encoder; every single encoding freedom on "
+        "every node, every pair (rich/default messages with <=25 nodes; all at thorough), uniform assignments, and the full on/off product "
+        "for small messages are rendered and decoded by the library (also through receive); the value must equal the original.",
+        note="RFC 4511 section 4 extensibility: trailing unrecognised components allowed on every LDAP SEQUENCE; octet strings primitive, lengths definite.",
+    ),
+    "C05": dict(
+        technique="exhaustive fault-sequence enumeration (all short byte strings, all single-byte and single-TLV-node mutations, all nesting depths) x chunkings x prior states on the real sessions",
+        text="All byte strings <=2 (3) over 256 values and <=5 (6) over 18 structural bytes; every single-byte replacement and truncation of 16 "
+        "rich base messages; every mutation from an 20-entry TLV fault menu on every node (pairs at thorough); filter nesting at every depth "
+        "to 700 and stepped to 3000; delivered whole / byte-wise / every 2-split, from fresh, BINDING and OPENED-with-outstanding states. "
+        "Oracle: list or ProtocolError only; then CLOSED, input and sends refused, e.response strictly decodes as notice/unbind.",
+        note="Three representative prior states per role; interpreter recursion limit at its default.",
+    ),
+    "C06": dict(
+        technique="exhaustive enumeration of interior TLV-node mutations inside complete envelopes x chunkings, against an independent outer framer",
+        text="Every interior node mutation (fault menu) of every base message, with the outer length kept satisfied, followed by a valid PDU; "
+        "delivered whole, byte-wise and at every 2-split. After each receive that returns, messages returned so far must equal the complete "
+        "units counted by an independent framer; otherwise ProtocolError.",
+        note="The framer reads only the outer identifier and definite length (vf/ref/ber.py).",
     ),
     "C07": dict(
         technique="bounded-exhaustive enumeration of primitive values / content octets against Python integer arithmetic",
@@ -32,7 +59,88 @@ CHECKS = {
         "multi-octet boundaries x 3 classes x P/C; every length 0..1100 (70000) plus 2^24-1, 2^24; all boolean octets; all octet "
         "strings of <=2 octets; every SEQUENCE/SET nesting of depth<=2 (3), fan-out<=2 over 4 leaf types.",
         note="Oracle = int.to_bytes/from_bytes and base-128/base-256 arithmetic in vf/ref/ber.py.",
-        ref="C07",
+    ),
+    "C08": dict(
+        technique="explicit-state BFS to a fixpoint over the real LDAPClient / LDAPServer with transition monitors (ghost variables)",
+        text="All reachable states of one session for <=K requests (client K=3/4, server ids 0..2/3) under the full alphabet of calls and "
+        "deliveries (every message kind x every candidate id, plus garbage); lifecycle clauses (a)-(h) of DESIGN C08 are evaluated on every edge. "
+        "Every newly found state is re-derived by replaying its history on a fresh object (conformance).",
+        note="Whole-PDU deliveries; outgoing buffer drained after each event; violating edges are not expanded unless a listed known finding.",
+    ),
+    "C09": dict(
+        technique="explicit-state BFS to a fixpoint over the real LDAPClient with id/correlation monitors",
+        text="Same client search as C08; on every edge: ids returned are positive, strictly increasing and equal to the id in the emitted bytes "
+        "(reference decoder); a response is accepted iff the ghost says its id is in progress (unknown where the property is silent); rejected "
+        "responses and all request-type messages raise ProtocolError and close.",
+        note="Candidate ids 0..K+1 for every response kind.",
+    ),
+    "C10": dict(
+        technique="explicit-state BFS to a fixpoint over both real sessions with wire-effect monitors",
+        text="Same searches as C08; on every edge: a refused call leaves the drained outgoing stream empty and raises only LDAPError; an accepted "
+        "server response implies its id is outstanding in the ghost, carries that id on the wire, and a final response retires it.",
+        note="Kind-mismatched responses may be accepted or cleanly refused (the property does not say which).",
+    ),
+    "C11": dict(
+        technique="joint explicit-state BFS to a fixpoint over (real client, real server, two fragmenting pipes, ghost queues)",
+        text="All interleavings of accepted client calls, matching server responses and fragment deliveries for <=K requests (K=2 quick: ~8e3 "
+        "states; K=3 thorough: ~1e6); every received message equals the head of the ghost queue; only designed terminations raise; at every "
+        "quiescent state both ends agree on state and on which ids are in progress (observational probes on clones).",
+        note="Fragments at PDU boundaries and two inner offsets (C02 proves other cuts equivalent); delivery to a CLOSED end disabled; 128-bit state digests.",
+    ),
+    "C12": dict(
+        technique="explicit-state BFS over a real session with the outgoing buffer kept in the state; drain amounts as events",
+        text="Send calls (accepted and refused) and data_to_send(a) for a in {None,0,1,2,pending-1,pending,pending+1,10^6} up to 2 (3) sends; "
+        "invariant on every edge: pending bytes == concatenation of accepted sends minus bytes drained; draining never changes protocol state.",
+        note="Negative amounts are outside the property's domain.",
+    ),
+    "C13": dict(
+        technique="bounded-exhaustive enumeration of filter objects; str() -> library parser and strict RFC 4515 reference recogniser",
+        text="7 valued leaf kinds x every value of <=2 octets (all 256 values) and every value of <=4 (5) symbols over the 22 octets any branch "
+        "looks at; all substring patterns over those components; all extensible forms; every tree of depth <=2 over 12 leaves (+depth 3). "
+        "from_string(str(f)) == f, str(f) is strict RFC 4515 and denotes abs(f) under the reference parser.",
+        note="Excludes what RFC 4515 text cannot express (empty substring components, extensible with neither rule nor attribute, rule named 'dn').",
+    ),
+    "C14": dict(
+        technique="bounded-exhaustive enumeration of RFC 4515 grammar derivations x tolerated-space assignments against an independent reference parser",
+        text="All derivations with depth<=3, list length<=3, values of <=2 (3) tokens from 12 value tokens, 4 attribute forms, every extensible "
+        "form, x all assignments of the tolerated space slots with <=2 (3) non-empty; library parse == reference parse, and the encoded "
+        "SearchRequest strict-decodes to the same tree.",
+        note="Left out: zero-length substring components and a matching rule spelled 'dn' (ambiguous in the ABNF).",
+    ),
+    "C15": dict(
+        technique="exhaustive enumeration of all strings up to a length bound over a 21-symbol alphabet, all single edits of a sentence corpus, all nesting depths",
+        text="Every string of length <=5 (6); every single-symbol insert/delete/replace of ~240 grammar sentences (double edits at thorough); "
+        "nesting 1..5000; lone surrogates. Returns a filter or raises FilterSyntaxError with a span inside the input; accepted attributes / rules "
+        "are RFC 4512-valid; the result's own text parses back to it.",
+        note="Offsets are read against the UTF-8 view of the stripped input.",
+    ),
+    "C16": dict(
+        technique="bounded-exhaustive enumeration (full(2)+dev(d)) of the three description classes through str()/from_string",
+        text="Every field over its domain with <=2 (3) deviating at once; description and extension text over every string of <=2 characters "
+        "from the 16 characters any branch of writer or reader inspects, plus long and non-BMP text.",
+        note="Fields RFC 4512-valid; syntax length only with a syntax.",
+    ),
+    "C17": dict(
+        technique="bounded-exhaustive enumeration of RFC 4512 grammar derivations x spacing assignments against an independent reference parser; token-sequence totality",
+        text="Every clause absent/present (<=2 (3) deviating), lists single or parenthesised with 0-3 items, every SP/WSP slot at minimum or widened, "
+        "14 dstring contents, 0-3 extensions, the AD quoted SYNTAX; every field must equal the reference parser's. Totality: all sequences of "
+        "<=4 (5) tokens over a 24-token alphabet in 4 contexts and all single-token edits of a sentence corpus raise only ValueError.",
+        note="Extension names compared without the X- prefix; no repeated extension names.",
+    ),
+    "C18": dict(
+        technique="model checking of regex automata: sre parse tree -> epsilon-NFA, exhaustive product-automaton SCC search for exponential ambiguity, model replayed against re; instruction-count pumped families for hand-written loops",
+        text="Every pattern the library hands to re (captured automatically) is analysed for inputs of unbounded length; the model is bound to "
+        "the engine by replaying every viable word up to 4-7 symbols; a reported ambiguity is a violation only if the pumped family blows up on the "
+        "real engine. Hand-written scanners: every family u v^k w (|v|<=2) and two-pump / nesting family is measured in bytecode instructions "
+        "at k=8..64; cost(2k) <= 8 cost(k)+c.",
+        note="C-level cost outside regexes is not measured; only exponential (not polynomial) ambiguity is reported; unsupported regex features decide nothing.",
+    ),
+    "C19": dict(
+        technique="stateless exhaustive exploration: every interleaving of every pair of bounded histories on two fresh real sessions, against per-history transcripts from pristine processes",
+        text="Histories of length <=2 over 17-18 operations per role (length 3 within focus groups at thorough), role pairs c/c, c/s, s/s, all merge "
+        "orders; each transcript must equal the one obtained alone in a freshly forked process. Plus all 8x8 registration subsets x 3 custom types "
+        "(decoded as custom iff registered, generic/refused otherwise, third session unaffected, duplicates and built-in collisions refused).",
+        note="The two sessions are unconnected; only hidden sharing inside the library can couple them.",
     ),
 }
 
@@ -55,7 +163,7 @@ def main() -> None:
                     "evidence_file": f"/verif/evidence/{pid}.json",
                     "replay_cmd_template": f"cd /verif && {PY} -m vf.run {pid} --replay {{path}}",
                     "engine": c.get("engine", "vf"),
-                    "level_claimed": {"category": "model_checking", "text": c["text"], "design_ref": f"DESIGN.md section 3, {c['ref']}"},
+                    "level_claimed": {"category": "model_checking", "text": c["text"], "design_ref": f"DESIGN.md section 3, {pid}"},
                     "level_note": c["note"],
                     "technique": c["technique"],
                 }
